@@ -1,11 +1,45 @@
 # Unit funcall: calling a function (kernel shared by C02 and C16).
 FN = 'yash-semantics/src/command/simple_command/function.rs'
+EX = 'yash-semantics/src/command/simple_command/external.rs'
+SEM = 'yash-env/src/semantics.rs'
 MOD_HEAD = '''    use vstd::prelude::*;
     use std::rc::Rc;
     use std::ops::ControlFlow::{self, Break, Continue};
 '''
 R0 = 'old(env).verif_runs@'
 R1 = 'final(env).verif_runs@'
+# the guards passing themselves where `&mut Env` is expected (DerefMut) = the reference they hold
+GUARD_REWRITES = [
+    # `let env = &mut <temporary guard>;` (lifetime of the temporary extended to the block) = an owning binding; every use
+    # below goes through auto-(de)ref and reads the same
+    ('let env = & mut RedirGuard :: new ( env ) ;', 'let mut env = RedirGuard::new(env);'),
+    ('xtrace . as_mut ( )', 'verif_as_mut(&mut xtrace)', '*'),
+    ('e . handle ( env )', 'e.handle(env.env)'),
+    ('env . push_context ( Context :: Volatile )', 'env.env.push_context(Context::Volatile)'),
+    ('perform_assignments ( & mut env ,', 'perform_assignments(env.env,'),
+    ('print ( & mut env , xtrace )', 'print(env.env, xtrace)'),
+]
+RC = 'final(env).verif_rcalls@'
+AC = 'final(env).verif_acalls@'
+REDIRS_OK = RC + '.last().ok'
+BOTH_OK = '(' + RC + '.last().ok && ' + AC + '.len() == old(env).verif_acalls@.len() + 1 && ' + AC + '.last().ok)'
+EXEC_COMMON = [
+    # C09: the redirections of the command are performed, once, all of them, first ...
+    RC + ' == old(env).verif_rcalls@.push(RCall { ids: redir_ids(redirs@), ok: ' + REDIRS_OK + ' })',
+    # ... and when the command is over the redirections in effect are those of before (RAII of the guard assumed), as are
+    # the variable contexts (C16: the assignments of the command vanish with it)
+    'final(env).verif_redirs@ == old(env).verif_redirs@',
+    'final(env).verif_contexts@ =~= old(env).verif_contexts@',
+    # a failed redirection: reported once, and nothing else happens - no assignment, no command
+    '!' + REDIRS_OK + ' ==> final(env).verif_handled@ == old(env).verif_handled@ + 1 && ' + AC + ' == old(env).verif_acalls@',
+    REDIRS_OK + ' ==> final(env).verif_handled@ == old(env).verif_handled@',
+    # C16: the assignments are made once, all of them, exported, in a volatile context pushed on top of the caller's,
+    # with the redirections in effect
+    REDIRS_OK + ' ==> ' + AC + '.len() == old(env).verif_acalls@.len() + 1 && ' + AC + '.last().export && ' + AC + '.last().ids == assign_ids(assigns@)'
+    ' && ' + AC + '.last().contexts == old(env).verif_contexts@.push(Context::Volatile) && ' + AC + '.last().redirs == old(env).verif_redirs@ + redir_ids(redirs@)',
+    # failed assignments: the divert is handed on
+    REDIRS_OK + ' && !' + AC + '.last().ok ==> r is Break',
+]
 UNIT = {
     'name': 'funcall',
     'property': 'C02',
@@ -15,6 +49,8 @@ UNIT = {
     'items': [
         ('@raw', 'pub mod fc {\n' + MOD_HEAD),
         ('@file', 'prelude.rs'),
+        # the status constants the executors name, from the real table
+        (SEM, ['impl ExitStatus#1', 'const NOT_FOUND']), (SEM, ['impl ExitStatus#1', 'const NOEXEC']), (SEM, ['impl ExitStatus#1', 'const ERROR']), (SEM, ['impl ExitStatus#1', 'const FAILURE']), (SEM, ['impl ExitStatus#1', 'const SUCCESS']),
         (FN, ['fn execute_function_body'], {'ret': 'r', 'rewrites': ['strip-async'],
             'token_rewrites': [
                 ('hook ( & mut env )', 'hook.call(env.env)'),
@@ -32,10 +68,59 @@ UNIT = {
                 R1 + '.last().contexts.last() matches Context::Regular { positional_params } && positional_params.verif_fields == Seq::new(fields@.len(), |i: int| fields@[i].verif_id)',
                 # ... which is gone afterwards (C16: locals and positional parameters vanish at return)
                 'final(env).verif_contexts@ =~= old(env).verif_contexts@',
+                # nothing else of what the monitor sees happens here: the redirections in effect are the caller's
+                R1 + '.last().redirs == old(env).verif_redirs@', 'final(env).verif_redirs@ == old(env).verif_redirs@',
+                'final(env).verif_rcalls@ == old(env).verif_rcalls@', 'final(env).verif_acalls@ == old(env).verif_acalls@', 'final(env).verif_started@ == old(env).verif_started@',
+                'final(env).verif_handled@ == old(env).verif_handled@', 'final(env).verif_not_found@ == old(env).verif_not_found@',
                 # C02: `return` leaves only this function: the caller goes on, with the status the return carried (or the one
                 # the body left); every other divert is handed on unchanged; a body that ends normally ends the call normally
                 R1 + '.last().result matches ControlFlow::Break(Divert::Return(st)) ==> r is Continue && final(env).exit_status == (match st { Some(s) => s, None => ' + R1 + '.last().status_after })',
                 '!(' + R1 + '.last().result matches ControlFlow::Break(Divert::Return(_))) ==> r == ' + R1 + '.last().result && final(env).exit_status == ' + R1 + '.last().status_after',
+            ]}),
+        (FN, ['fn execute_function'], {'ret': 'r', 'rewrites': ['strip-async'],
+            'token_rewrites': GUARD_REWRITES + [
+                ('& env . options', '&env.env.options'),
+                ('execute_function_body ( & mut env , function , fields , None )', 'execute_function_body(env.env, function, fields, None)'),
+            ],
+            'ensures': EXEC_COMMON + [
+                # C02: the body runs (once) iff the redirections and the assignments succeeded ...
+                'final(env).verif_runs@.len() == old(env).verif_runs@.len() + (if ' + BOTH_OK + ' { 1int } else { 0int })',
+                # ... with the redirections in effect and, above the caller's contexts, the volatile context of the
+                # assignments and the function's own regular context with the call's positional parameters
+                BOTH_OK + ' ==> final(env).verif_runs@.last().redirs == old(env).verif_redirs@ + redir_ids(redirs@)'
+                ' && final(env).verif_runs@.last().contexts.len() == old(env).verif_contexts@.len() + 2'
+                ' && (forall|i: int| 0 <= i < old(env).verif_contexts@.len() ==> #[trigger] final(env).verif_runs@.last().contexts[i] == old(env).verif_contexts@[i])'
+                ' && final(env).verif_runs@.last().contexts[old(env).verif_contexts@.len() as int] is Volatile'
+                ' && (final(env).verif_runs@.last().contexts.last() matches Context::Regular { positional_params } && positional_params.verif_fields == field_ids(fields@))',
+                'final(env).verif_started@ == old(env).verif_started@',
+            ]}),
+        (EX, ['fn execute_external_utility'], {'ret': 'r', 'rewrites': ['strip-async'],
+            'token_rewrites': GUARD_REWRITES + [
+                ('let name = & fields [ 0 ] ;', 'let name = &fields[0]; let ghost verif_fields = fields@;'),
+                ('name . value . contains ( \'/\' )', 'verif_has_slash(&name.value)'),
+                ('CString :: new ( & * name . value ) . ok ( )', 'verif_cstring(&name.value)'),
+                ('search_path ( & mut * env , & name . value )', 'search_path(env.env, &name.value)'),
+                ('start_external_utility_in_subshell_and_wait ( & mut env , path , fields )', 'start_external_utility_in_subshell_and_wait(env.env, path, fields)'),
+                ('print_error ( & mut env ,', 'print_error(env.env,'),
+                ('format ! ( "cannot execute external utility {:?}" , name . value ) . into ( )', 'verif_msg(&name.value)'),
+                ('format ! ( "utility {:?} not found" , name . value ) . into ( )', 'verif_msg(&name.value)'),
+                ('env . exit_status =', 'env.env.exit_status =', '*'),
+            ],
+            'requires': ['fields@.len() >= 1'],
+            'ensures': EXEC_COMMON + [
+                'final(env).verif_runs@ == old(env).verif_runs@',
+                # the utility is started at most once, and only after both steps succeeded; then with the redirections in
+                # effect, the volatile context on top, and all the fields of the command
+                'final(env).verif_started@.len() <= old(env).verif_started@.len() + 1',
+                'final(env).verif_started@.len() == old(env).verif_started@.len() + 1 ==> ' + BOTH_OK
+                + ' && final(env).verif_started@.last().redirs == old(env).verif_redirs@ + redir_ids(redirs@)'
+                ' && final(env).verif_started@.last().contexts == old(env).verif_contexts@.push(Context::Volatile)'
+                ' && final(env).verif_started@.last().fields == field_ids(fields@)'
+                # its status becomes `$?`; a divert from it is handed on
+                ' && (match final(env).verif_started@.last().result { ControlFlow::Continue(st) => r is Continue && final(env).exit_status == st, ControlFlow::Break(d) => r == ControlFlow::<Divert, ()>::Break(d) })',
+                # a utility that is not found: nothing is started, one report, status 127
+                BOTH_OK + ' && final(env).verif_started@.len() == old(env).verif_started@.len() ==> final(env).verif_not_found@ == old(env).verif_not_found@ + 1 && final(env).exit_status == ExitStatus::NOT_FOUND && ExitStatus::NOT_FOUND == ExitStatus(127) && r is Continue',
+                BOTH_OK + ' && final(env).verif_started@.len() == old(env).verif_started@.len() + 1 ==> final(env).verif_not_found@ == old(env).verif_not_found@',
             ]}),
         ('@raw', '}\n'),
     ],
